@@ -56,7 +56,12 @@ RULE = ("hierarchies = every C3-valid base assignment over <=4 classes in which 
         "annotated only, empty) and then to the class under test (64 hand-enumerated define cases first, then sampled); "
         "field_transformers that build what they return through evolve(metadata=<kept dict / MappingProxyType over "
         "it>) or Attribute(..., metadata=<kept dict / user Mapping>) and mutate the kept container after class "
-        "creation; history of the class object before the "
+        "creation; introspection BEFORE decoration (has / fields + fields_dict with the expected refusal / asdict + "
+        "astuple meeting an instance / a plain subclass made and asked first -- on the still-undecorated class from "
+        "user code, and has / fields / fields_dict from inside the field_transformer), then the decoration (in place "
+        "for dict classes), then histAgree: has(cls) <=> fields(cls) and fields_dict(cls) work for every class and "
+        "auxiliary class, and asdict / astuple recurse into an instance of the class under test; "
+        "history of the class object before the "
         "decoration under test (harness-only; the expected tuple is a function of the body): a decoration "
         "attempt attrs refuses after looking at the body (cache_hash without hashing / frozen with on_setattr"
         " / non-bool hash / cache_hash with init=False) then the valid one on the same class object, a "
@@ -90,7 +95,8 @@ LEVEL_TEXT = ("Lean theorems for arbitrary tables of base tuples, MROs, hierarch
 
 POOL = ["x", "y", "_z"]
 HISTORIES = ["failed_cache_hash", "failed_frozen_on_setattr", "failed_hash_value", "failed_cache_hash_no_init",
-             "twice_slots_first", "shared", "reused_mixed", "reused_unannotated", "reused_annotated", "reused_empty"]
+             "twice_slots_first", "shared", "reused_mixed", "reused_unannotated", "reused_annotated", "reused_empty",
+             "pre_has", "pre_fields", "pre_asdict", "pre_sub", "pre_all", "pre_all"]
 QUICK_GEN_S = 26
 THOROUGH_GEN_S = 370
 DEFAULT_OPTS = {"hasDefault": False, "init": True, "kwOnly": False, "alias": None, "tag": None}
@@ -133,6 +139,7 @@ def _views(case, built, leaf):
         fs2, fd2 = attr.fields(cls), attr.fields_dict(cls)
         agree = agree and list(fd2) == [a.name for a in fs2] and all(fd2[a.name] is a for a in fs2)
     obs["dictAgree"] = bool(agree)
+    obs["histAgree"] = _hist_agree(built, leaf)
     obs["has"] = [bool(attr.has(c)) for c in built["classes"]]
     obs["matchArgs"] = list(getattr(leaf, "__match_args__", ("<absent>",)))
     try:
@@ -220,6 +227,39 @@ def _views(case, built, leaf):
     return obs
 
 
+def _works(f, cls):
+    try:
+        f(cls)
+        return True
+    except attr.exceptions.NotAnAttrsClassError:
+        return False
+
+
+def _hist_agree(built, leaf):
+    """whatever was asked of the classes before they were decorated: has(cls) <=> fields(cls) / fields_dict(cls)
+    work, for every class of the hierarchy and every auxiliary class the history made; asdict / astuple recurse into
+    an instance of the class under test exactly when has() says it is an attrs class (it is)"""
+    ok = True
+    for cls in [*built["classes"], *built["ns"]["_user"]["aux"]]:
+        h = bool(attr.has(cls))
+        ok = ok and h == _works(attr.fields, cls) == _works(attr.fields_dict, cls)
+    try:
+        inst = object.__new__(leaf)
+        for a in attr.fields(leaf):
+            object.__setattr__(inst, a.name, 0)
+    except Exception:  # noqa: BLE001 -- cannot make a bare instance of this layout: nothing to observe
+        return bool(ok)
+    try:
+        holder = attr.make_class("Holder", ["v"])(inst)
+        d = attr.asdict(holder)["v"]
+        t = attr.astuple(holder)[0]
+        names = [a.name for a in attr.fields(leaf)]
+        ok = ok and isinstance(d, dict) and list(d) == names and isinstance(t, tuple) and len(t) == len(names)
+    except Exception:  # noqa: BLE001
+        ok = False
+    return bool(ok)
+
+
 def _check_mros(case, built):
     ids = {c: i for i, c in enumerate(built["classes"])}
     for k, c in enumerate(built["classes"]):
@@ -229,7 +269,7 @@ def _check_mros(case, built):
 
 
 EMPTY = {"err": None, "fields": [], "received": None, "returned": None, "byIndex": [], "byName": [], "dictKeys": [],
-         "dictAgree": True, "has": [], "matchArgs": [], "initParams": [], "twins": [], "setattrKinds": [],
+         "dictAgree": True, "histAgree": True, "has": [], "matchArgs": [], "initParams": [], "twins": [], "setattrKinds": [],
          "metaWriteKinds": [], "afterMutation": []}
 
 _COUNT = [0]
@@ -610,6 +650,7 @@ def base_cfg(rng, shape_bases, rich):
             if rng.random() < 0.45:
                 pc["history"] = rng.choice(HISTORIES)
             pc["define_api"] = rng.choice(["define", "define", "mutable"])
+            pc["tr_probe"] = rng.random() < 0.7
             # how a field_transformer builds what it returns (with containers it keeps and mutates later)
             pc["tr_style"] = rng.choice(["plain", "evolve_md", "evolve_md_proxy", "ctor", "ctor_mapping"])
             # the KIND of every user-supplied container
